@@ -81,7 +81,6 @@ PINNED_FUNCS = [
     (f"{CORE}/builder.py", "job_loop", "Builder"),
     (f"{CORE}/finalize.py", "revert_optional_steps", None),
     (f"{CORE}/tui.py", "_normalize_targets", None),
-    (f"{CORE}/workflow.py", "reconcile_targets", "Workflow"),
     (f"{CORE}/workflow.py", "need_threshold", "Workflow"),
 ]
 
@@ -339,6 +338,64 @@ def parse_resource_unavailable(text: str, running: int) -> list[str]:
         else:
             raise TranslatorError(f"RESOURCE_UNAVAILABLE: inner WHERE conjunct not recognised: {c!r}")
     return atoms
+
+
+# ---------------------------------------------------------------------------------------------
+# Workflow.reconcile_targets: translated statement by statement, not pinned
+# ---------------------------------------------------------------------------------------------
+
+RECONCILE_LOOP = """for path in sorted(self.targets):
+    file = self.find_attached(File, path)
+    if file is None:
+        continue
+    state = file.get_state()
+    if state in TARGET_FORBIDDEN_STATES:
+        if not self._creator_chain_pending(file):
+            self._raise_if_forbidden_target(path, state)
+        continue
+    creator = file.creator()
+    if isinstance(creator, Step):
+        self.db.execute('UPDATE step SET _check_after = 1 WHERE node = ?', (creator.i,))"""
+
+# the same loop without its last two statements (validation only)
+RECONCILE_LOOP_NO_FLAG = RECONCILE_LOOP[:RECONCILE_LOOP.index("\n    creator = file.creator()")]
+
+
+def parse_reconcile_targets(E) -> tuple[bool, bool, bool]:
+    """Which of the three flagging parts Workflow.reconcile_targets has (each compared with the shape the model
+    interprets; any other statement: fail closed):
+      stale  self.db.execute(f"UPDATE step SET _check_after = 1 WHERE _implied_need = {Need.TARGET.value}")
+      exact  the loop over sorted(self.targets) that flags the creator step of an attached target file
+      dirs   self.db.execute(RECONCILE_TARGET_DIRS)"""
+    fn = find_function(parse_module(f"{CORE}/workflow.py"), "reconcile_targets", "Workflow")
+    fn = _Strip().visit(fn)
+    ast.fix_missing_locations(fn)
+    stale = exact = dirs = False
+    for node in fn.body:
+        text = ast.unparse(node)
+        if text == "self.db.execute(RECONCILE_TARGET_DIRS)" and not dirs:
+            dirs = True
+        elif text == RECONCILE_LOOP and not exact and not dirs:
+            exact = True
+        elif text == RECONCILE_LOOP_NO_FLAG and not exact and not dirs:
+            pass    # the loop only validates the targets: part 2 is missing
+        elif isinstance(node, ast.Expr) and isinstance(node.value, ast.Call) and not stale and not exact and not dirs \
+                and ast.unparse(node.value.func) == "self.db.execute" and len(node.value.args) == 1 \
+                and isinstance(node.value.args[0], ast.JoinedStr):
+            parts = []
+            for v in node.value.args[0].values:
+                if isinstance(v, ast.Constant):
+                    parts.append(v.value)
+                elif ast.unparse(v.value) == "Need.TARGET.value":
+                    parts.append(str(E.Need.TARGET.value))
+                else:
+                    raise TranslatorError("reconcile_targets: unexpected interpolation in the stale-elevation UPDATE")
+            if norm_sql("".join(parts)) != f"UPDATE step SET _check_after = 1 WHERE _implied_need = {E.Need.TARGET.value}":
+                raise TranslatorError("reconcile_targets: first UPDATE not recognised")
+            stale = True
+        else:
+            raise TranslatorError(f"reconcile_targets: statement not recognised: {text.splitlines()[0]!r}")
+    return stale, exact, dirs
 
 
 # ---------------------------------------------------------------------------------------------
@@ -662,6 +719,8 @@ def generate():
     cas = parse_check_after_sources(_const(ST, "RECURSIVE_CHECK_AFTER_SOURCES"))
     facts["check_after_sources_where"] = cas
 
+    rparts = parse_reconcile_targets(E)
+    facts["reconcile_parts"] = list(rparts)
     trg = parse_triggers(_const(ST, "STEP_SCHEMA"))
 
     def when_of(name, required):
@@ -788,6 +847,12 @@ def generate():
     o.append(f"Definition fail_state : N := {SS.FAILED.value}.")
     o.append(f"Definition success_state : N := {SS.SUCCEEDED.value}.")
     o.append(f"Definition dyn_available_states : list N := {lst([FS.CONFIRMED.value, FS.BUILT.value])}.")
+    o.append("(* workflow.reconcile_targets: (flags stale TARGET elevations, flags the creators of exact targets, "
+             "flags the producers under directory targets); enums.TARGET_FORBIDDEN_STATES; FILE_STATES_BY_ROLE[STATIC] *)")
+    o.append(f"Definition reconcile_parts : bool * bool * bool := ({str(rparts[0]).lower()}, {str(rparts[1]).lower()}, {str(rparts[2]).lower()}).")
+    o.append(f"Definition reconcile_stale_need : N := {ND.TARGET.value}.")
+    o.append(f"Definition target_forbidden_states : list N := {lst(sorted(x.value for x in E.TARGET_FORBIDDEN_STATES))}.")
+    o.append(f"Definition static_file_states : list N := {lst(sorted(x.value for x in E.FILE_STATES_BY_ROLE[E.FileRole.STATIC]))}.")
     o.append("(* finalize.revert_optional_steps *)")
     o.append(f"Definition revert_need : N := {ND.OPTIONAL.value}.")
     o.append(f"Definition revert_step_state : N := {SS.PENDING.value}.")
